@@ -1248,6 +1248,18 @@ def corpus_link_target(cx, c):
             cx.n_div += 1; cx.failures.append({"kind": "correspondence", "scenario": "corpus link target is reported now (C09_diff_link_target_blind_refuted describes the code no more)", "output": out})
         else:
             fail(cx, NOWORLD, -1, {"oracle": "corpus link target", "outcome": [oc, doc], "stderr": err})
+        # the same blindness from the other side: /K a link to /T1 against /K a proper node with T1's header and other children
+        t3 = [N(b"T1", kids=[N(b"kid1")]), N(b"T2", kids=[N(b"kid2")]), N(b"K", kids=[N(b"other")])]
+        f3 = "c_k3." + ext
+        build_files(cx.exe["cgio_h"], work, {"be": be, "order": [f3], "trees": {f3: t3}}, ck.rng)
+        out, oc, err = run_cgnsdiff(cx, work, f1, f3, 0)
+        outf, ocf, errf = run_cgnsdiff(cx, work, f1, f3, 1)
+        preds = model_diffs([(f1, be, trees[f1]), (f3, be, t3)], [(f1, f3, "d", 0, None), (f1, f3, "d", 1, None)])
+        ck.cov["traces_validated_against_impl"] += 2
+        if oc == "ok" and ocf == "ok" and not out and outf:
+            finding_once(ck, c["key"], {"what": c["what"], "variant": "link against a proper node of equal header", "backend": be, "with_-f": outf[:4]})
+        if (oc, ocf) == ("ok", "ok") and [out, outf] != preds:
+            cx.n_div += 1; cx.failures.append({"kind": "correspondence", "scenario": "corpus link against node", "model": preds, "impl": [out, outf]})
 
 
 def corpus_tol_nan(cx, c):
@@ -1420,7 +1432,7 @@ def run(ck, pid="C09"):
         "a copy that returns an error (HDF5 cannot hold a typed node without dimensions; unresolvable link with follow_links) is outside the property",
         "cgnsdiff is judged on pairs whose links resolve in both files (it exits with an error otherwise); -c / -i / -t are outside the default options",
         "ADF free-space / chunk tables and all of libhdf5 are tied by this differential run only",
-        "axioms: 23 theorems closed; the 18 whose statement involves compare_data / compare_nodes / cgnsdiff (whose tolerance branch is "
+        "axioms: 23 theorems closed; the 19 whose statement involves compare_data / compare_nodes / cgnsdiff (whose tolerance branch is "
         "written with Flocq's binary32 / binary64 operations) inherit Flocq's four standard-library axioms ClassicalDedekindReals.sig_forall_dec, "
         "ClassicalDedekindReals.sig_not_dec, FunctionalExtensionality.functional_extensionality_dep, Classical_Prop.classic"]
     ck.cov["rule"] = ("seeded worlds of 1-3 files in one back end (random trees of 6-110 nodes, deep chains, wide parents, all ten types, payloads around "
